@@ -101,7 +101,7 @@ Section Batch.
      (index modulo the number of remaining groups; an exhausted [sched] continues with index 0).
      Every [sched] yields a permutation and every permutation is reached by some [sched]
      (BatchProofs.schedule_perm / schedule_complete). *)
-  Fixpoint extract {A : Type} (n : nat) (l : list A) : option (A * list A) :=
+  Fixpoint extract {A : Type} (n : nat) (l : list A) {struct l} : option (A * list A) :=
     match l with
     | [] => None
     | x :: l' =>
